@@ -282,7 +282,12 @@ func runCheck(id, tier, repo, verif string, writeEvidence bool) int {
 		failed, out := P.runGoTests(execFiles, tmp)
 		for name := range execFiles {
 			f, ran := failed[name]
-			cr.extras = append(cr.extras, extraResult{Name: name, Kind: "executed", OK: ran && !f, Detail: truncate(out, 3000), Ms: time.Since(t0).Milliseconds()})
+			kind := "executed"
+			if strings.HasPrefix(name, "executed/bounded_") {
+				kind = "bounded"
+				name = "bounded/" + strings.TrimPrefix(name, "executed/bounded_")
+			}
+			cr.extras = append(cr.extras, extraResult{Name: name, Kind: kind, OK: ran && !f, Detail: truncate(out, 3000), Ms: time.Since(t0).Milliseconds()})
 		}
 	}
 	violations := 0
